@@ -227,9 +227,15 @@ def walk (fs : Fs) : Path → List String → Option Path
       else none
     | none => none
 
+/-- `target.split("/")` on the code points (structural, so that concrete runs reduce in the kernel) -/
+def splitSlash : List Char → List Char → List String
+  | acc, [] => [String.ofList acc.reverse]
+  | acc, c :: cs => if c = '/' then String.ofList acc.reverse :: splitSlash [] cs else splitSlash (c :: acc) cs
+
 def pathOfTarget (fs : Fs) (base : Path) (target : String) : Option Path :=
-  if target.startsWith "/" then none      -- absolute targets leave the scratch tree: not resolvable in the model
-  else walk fs base (target.splitOn "/")
+  match target.toList with
+  | '/' :: _ => none      -- absolute targets leave the scratch tree: not resolvable in the model
+  | cs => walk fs base (splitSlash [] cs)
 
 /-- `os.stat(p)`: follow symlinks at the final component (literally, bounded) -/
 def statFollow (fs : Fs) : Nat → Path → Option (Path × Nat × Inode)
@@ -367,11 +373,10 @@ def copyfile (env : Env) (s : St) (e : Entry) : St × Except Exc Unit :=
         match s1.sysAll env (createOps env e fp ++ permsOps e fp ++ [.rename fp e.loc]) with
         | (s2, r) => (s2, r)
   | none =>
-    let b := e.loc.tail
-    let (s1, okDirs) :=
-      if (statFollow s.fs 8 b).isSome then (s, true) else ensureDirs env s b
-    if okDirs then s1.sysAll env (createOps env e e.loc ++ permsOps e e.loc)
-    else (s1, .error .failedCopy)
+    -- `os.path.exists(dirname)`, else `ensure_dirs(dirname, mode=0o750, minimal=True)`
+    let r := if (statFollow s.fs 8 e.loc.tail).isSome then (s, true) else ensureDirs env s e.loc.tail
+    if r.2 then r.1.sysAll env (createOps env e e.loc ++ permsOps e e.loc)
+    else (r.1, .error .failedCopy)
 
 /-- `ops.do_link(src, trg)`; `EXDEV` does not occur on the single modelled device, so the result is
 `ok ()` (= `True`) or an exception -/
@@ -398,16 +403,19 @@ def doLink (env : Env) (s : St) (src trg : Path) : St × Except Exc Unit :=
 def canHardlink (t x : Entry) : Bool :=
   decide (t.uid = x.uid ∧ t.gid = x.gid ∧ t.mode = x.mode ∧ t.mtime = x.mtime)
 
-abbrev Cands := List ((Nat × Nat) × List Entry)
+/-- the source inode key `(st_dev, st_ino)` of a regular entry -/
+def Entry.key (e : Entry) : Option (Nat × Nat) :=
+  match e.kind with
+  | .reg _ k => k
+  | _ => none
 
-def Cands.get (c : Cands) (k : Nat × Nat) : List Entry :=
-  match c.find? (fun kv => kv.1 = k) with
-  | some kv => kv.2
-  | none => []
+/-- `merged_inodes`: the dict `key → [entries]` is kept as one list in insertion order; the list of a key is
+the sub-list of the entries with that key (same order), so "first candidate of `merged_inodes[key]` that can be
+hard-linked" is `firstCand` -/
+abbrev Cands := List Entry
 
-def Cands.add (c : Cands) (k : Nat × Nat) (e : Entry) : Cands :=
-  if c.any (fun kv => kv.1 = k) then c.map (fun kv => if kv.1 = k then (kv.1, kv.2 ++ [e]) else kv)
-  else c ++ [(k, [e])]
+def firstCand (c : Cands) (k : Nat × Nat) (x : Entry) : Option Entry :=
+  c.find? (fun t => decide (t.key = some k) && canHardlink t x)
 
 /-- the symlink branch of the `except CannotOverwrite` handler: `gen_obj(pjoin(x.location, x.target))` is a
 directory ⇒ the entry is skipped -/
@@ -427,14 +435,14 @@ def mergeNonDirs (env : Env) : St → Cands → List Entry → St × Except Exc 
   | s, c, x :: xs =>
     match x.kind with
     | .reg _ (some k) =>
-      match (c.get k).find? (fun t => canHardlink t x) with
+      match firstCand c k x with
       | some t =>
         match doLink env s t.loc x.loc with
         | (s1, .ok ()) => mergeNonDirs env s1 c xs
         | (s1, .error e) => (s1, .error e)
       | none =>
         match copyfile env s x with
-        | (s1, .ok ()) => mergeNonDirs env s1 (c.add k x) xs
+        | (s1, .ok ()) => mergeNonDirs env s1 (c ++ [x]) xs
         | (s1, .error e) => (s1, .error e)
     | _ =>
       match copyfile env s x with
@@ -469,22 +477,29 @@ def mergeDirs (env : Env) : St → List Entry → St × Except Exc Unit
     | (s1, .ok ()) => mergeDirs env s1 xs
     | (s1, .error e) => (s1, .error e)
 
-/-- rendering of a location as the code sorts it (`str` comparison, code point order) -/
-def pathKey (p : Path) : List Char :=
-  p.reverse.foldr (fun n acc => '/' :: n.toList ++ acc) []
+/-- rendering of a location as the code sorts it (`str` comparison, code point order): `/a/b` for `["b","a"]` -/
+def pathKey : Path → List Char
+  | [] => []
+  | n :: q => pathKey q ++ '/' :: n.toList
 
-def sortDirs (ds : List Entry) : List Entry :=
-  ds.mergeSort (fun a b => decide (pathKey a.loc ≤ pathKey b.loc))
+/-- `list.sort()` on fs objects (`fsBase.__lt__` compares locations): a stable insertion sort by `pathKey` -/
+def insertByKey (x : Entry) : List Entry → List Entry
+  | [] => [x]
+  | y :: ys => if pathKey y.loc ≤ pathKey x.loc then y :: insertByKey x ys else x :: y :: ys
+
+def sortDirs : List Entry → List Entry
+  | [] => []
+  | x :: xs => insertByKey x (sortDirs xs)
 
 /-- `merge_contents(cset, offset)`: `entries` in contents (dict) order, locations relative to the root;
 `withOffset` = an `offset` argument was given (then a missing root is created first) -/
 def mergeContents (env : Env) (withOffset : Bool) (entries : List Entry) (fs : Fs) : St × Except Exc Unit :=
-  let s0 : St := ⟨fs, []⟩
-  let (s1, r1) : St × Except Exc Unit :=
-    if withOffset ∧ (fs.view []).isNone then s0.sysAll env [.mkdir [] (maskMode 0o777 env.umask)] else (s0, .ok ())
-  match r1 with
-  | .error e => (s1, .error e)
-  | .ok () =>
+  let r0 : St × Except Exc Unit :=
+    if withOffset = true ∧ fs.view [] = none then St.sysAll env ⟨fs, []⟩ [.mkdir [] (maskMode 0o777 env.umask)]
+    else (⟨fs, []⟩, .ok ())
+  match r0 with
+  | (s1, .error e) => (s1, .error e)
+  | (s1, .ok ()) =>
     match mergeDirs env s1 (sortDirs (entries.filter (·.isDir))) with
     | (s2, .error e) => (s2, .error e)
     | (s2, .ok ()) => mergeNonDirs env s2 [] (entries.filter (fun e => !e.isDir))
